@@ -105,6 +105,13 @@ def r_rej_empty(ctx):
             if p.exit == "err":
                 saw_err = True
                 obs.append(Ob("R-REJ-EMPTY", fn, "error exit leaves the store untouched", not muts, "mutations on an error path: %d" % len(muts), rel(f["loc"])))
+                if not (isinstance(p.value, tuple) and p.value and p.value[0] == "errprop"):
+                    # the function's own refusal: taken only for empty content, in whatever form the test is written
+                    data_params = [V("param:" + n) for n in fa.param_names if n not in ("self", "tile_id")]
+                    d = rejects_because(p, None, lambda fct: fct[0] == "empty" and fct[2] is True and any(x in leaves(fct[1]) or unmut(fct[1]) == x for x in data_params))
+                    ex = [e for e in p.events if e.kind == "exit"]
+                    obs.append(Ob("R-REJ-EMPTY", fn, "content is refused only when it is empty", d is not None,
+                                  "refusal justified by an emptiness test of the content" if d is not None else "an error exit that no emptiness test of the content accounts for", ex[-1].loc() if ex else rel(f["loc"]), only=("C01", "C04")))
         obs.append(Ob("R-REJ-EMPTY", fn, "empty content ⇒ Err", saw_err, "error exits: %s" % saw_err, rel(f["loc"])))
         # forwarding wrappers do not catch the error
         for g in ctx.user_fns():
@@ -205,6 +212,12 @@ def r_remove_guard(ctx):
                     guard = True      # there is no id set for this hash: no other id can refer to the bytes
                 obs.append(Ob("R-REMOVE-GUARD", fn, "%s dropped only when the id set became empty (tested after removing this id)" % which, guard and key_ok,
                               "key = %s; emptiness guard after the id-set removal: %s" % (tstr(unmut(dr.d["args"][-1]))[:80], guard), dr.loc()))
+            if hashed and setrm and not drops_d:
+                # converse (the store retains no content that no tile refers to): bytes are kept only because the id set is known to be non-empty
+                target = _set_of(setrm[0].d["args"][0])
+                d = rejects_because(p, None, lambda fct: fct[0] == "empty" and fct[2] is False and _set_of(fct[1]) == target, after=setrm[0].seq)
+                obs.append(Ob("R-REMOVE-GUARD", fn, "bytes are kept only while another id still refers to them", d is not None,
+                              "kept because the id set is non-empty" if d is not None else "a path removes the id from its set and keeps the bytes without knowing that the set is non-empty", setrm[0].loc(), only=("C10",)))
             if drops_d or drops_s:
                 obs.append(Ob("R-REMOVE-GUARD", fn, "bytes and id set are dropped together", len(drops_d) == 1 and (len(drops_s) == 1 or (vacant and not drops_s)), "bytes drops: %d, id-set drops: %d" % (len(drops_d), len(drops_s)), rel(f["loc"])))
         obs.append(Ob("R-REMOVE-GUARD", fn, "a path that drops unreferenced bytes exists", n_drop > 0, "drop sites on paths: %d" % n_drop, rel(f["loc"])))
@@ -388,6 +401,19 @@ def r_finish_pair(ctx):
                 ok_dat = _same_root(dat, unmut(appends[0].d["args"][0]))
                 obs.append(Ob("R-COUNTERS", fn, "data = the buffer the contents were appended to", ok_dat, "data = %s" % tstr(dat)[:60], rel(f["loc"])))
         obs.append(Ob("R-FINISH-PAIR", fn, "both dedup arms present", arms == {"hit", "miss"}, "arms: %s" % sorted(arms), rel(f["loc"])))
+        # every counter starts at 0 and only ever moves by +1
+        counters = set()
+        for p in fa.paths:
+            for e in p.events:
+                if e.kind == "assign" and e.d.get("compound") == "+" and e.d.get("name") and e.loops:
+                    counters.add(e.d["name"])
+        for atom, srcs in sorted(fa.havoc_src.items(), key=lambda kv: str(kv[0])):
+            nm = atom[1].rpartition(":")[2] if atom[0] == "v" else None
+            if nm in counters:
+                vals = set(unmut(x) for x in srcs)
+                ok0 = C(0) in vals
+                okinc = all(v == C(0) or v == atom or aff_eq(affine(v), (1, {atom: 1})) for v in vals)
+                obs.append(Ob("R-COUNTERS", fn, "counter `%s` starts at 0 and moves only by +1" % nm, ok0 and okinc, "values the counter takes: %s" % sorted(tstr(v)[:40] for v in vals), rel(f["loc"])))
     return obs
 
 
@@ -434,22 +460,34 @@ def r_rle_dep(ctx):
                 obs.append(Ob("R-RLE-DEP", fn, "extend arm: run_length += 1 and nothing else", ok_inc, "store %s = %s; pushes: %d" % (tstr(unmut(st.d["place"]))[:60], tstr(unmut(st.d["value"]))[:60], len(pushes)), st.loc()))
                 is_last = is_call_to(last, lambda s: s.endswith("::last_mut") or s.endswith("::last"))
                 adj = off = False
-                for d in p.decisions(st.seq):
-                    if d.d["how"] != "if" or d.d["outcome"] is not True:
-                        continue
-                    for c in _conjuncts(unmut(d.d["cond"])):
-                        if c[0] == "bin" and c[1] == "==":
-                            l, r = affine(c[2]), affine(c[3])
-                            diff = aff_sub(l, r)
-                            want = (0, {P.get("tile_id"): 1, ("f", last, "tile_id"): -1, ("f", last, "run_length"): -1})
-                            neg = (0, {k: -v for k, v in want[1].items()})
-                            if aff_eq(diff, want) or aff_eq(diff, neg):
-                                adj = True
-                            wo = (0, {P.get("offset"): 1, ("f", last, "offset"): -1})
-                            if aff_eq(diff, wo) or aff_eq(diff, (0, {k: -v for k, v in wo[1].items()})):
-                                off = True
-                obs.append(Ob("R-RLE-DEP", fn, "extend arm requires adjacency: tile_id == last.tile_id + last.run_length", adj and is_last, "adjacency conjunct found: %s" % adj, st.loc()))
-                obs.append(Ob("R-RLE-DEP", fn, "extend arm requires equal offsets: last.offset == offset", off and is_last, "offset conjunct found: %s" % off, st.loc()))
+                extra = []
+                want = (0, {P.get("tile_id"): 1, ("f", last, "tile_id"): -1, ("f", last, "run_length"): -1})
+                wo = (0, {P.get("offset"): 1, ("f", last, "offset"): -1})
+                wl = (0, {P.get("length"): 1, ("f", last, "length"): -1})
+
+                def _is(diff, w):
+                    return aff_eq(diff, w) or aff_eq(diff, (0, {k: -v for k, v in w[1].items()}))
+                rl = ("f", last, "run_length")
+                for fct, d in path_facts(p, st.seq):
+                    if fct[0] == "rel":
+                        a, b = unmut(fct[2]), unmut(fct[3])
+                        diff = aff_sub(affine(a), affine(b))
+                        if fct[1] == "==" and _is(diff, want):
+                            adj = True
+                        elif fct[1] == "==" and _is(diff, wo):
+                            off = True
+                        elif fct[1] == "==" and _is(diff, wl):
+                            pass        # implied by equal offsets of non-overlapping contents; harmless either way
+                        elif fct[1] != "==" and ((a == rl and b[0] == "c") or (b == rl and a[0] == "c")):
+                            pass        # an overflow guard on the counter itself
+                        else:
+                            extra.append("%s %s %s" % (tstr(a)[:40], fct[1], tstr(b)[:40]))
+                    elif fct[0] in ("bool", "empty"):
+                        extra.append("%s(%s) is %s" % (fct[0], tstr(unmut(fct[1]))[:50], fct[2]))
+                obs.append(Ob("R-RLE-DEP", fn, "extend arm requires adjacency: tile_id == last.tile_id + last.run_length", adj and is_last, "adjacency fact on the path: %s" % adj, st.loc()))
+                obs.append(Ob("R-RLE-DEP", fn, "extend arm requires equal offsets: last.offset == offset", off and is_last, "offset fact on the path: %s" % off, st.loc()))
+                obs.append(Ob("R-RLE-DEP", fn, "extend arm is taken whenever id is adjacent and offsets agree (no further condition: runs are maximal)", not extra,
+                              "additional conditions on the extending path: %s" % ("; ".join(extra) or "none"), st.loc()))
             else:
                 ok = len(pushes) == 1
                 if ok:
@@ -617,6 +655,33 @@ def _bytes_compared(p, upto, content):
     return False
 
 
+def r_hashfn(ctx):
+    """R-HASHFN: the content hash is a function of the whole content: on every path the value is fed into the hasher whose `finish()` is returned"""
+    obs = []
+    hfs = hash_fns(ctx)
+    if not hfs:
+        return no_anchor("R-HASHFN", "content hash function (calls Hasher::finish)")
+    for f in hfs:
+        fa = ctx.fa(f)
+        vparams = [V("param:" + n) for n in fa.param_names]
+        for p in fa.paths:
+            fins = [e for e in p.events if e.kind == "call" and e.d["fn"] == "core::hash::Hasher::finish"]
+            ok = False
+            why = "no Hasher::finish on this path"
+            if fins:
+                fin = fins[-1]
+                hasher = unmut(fin.d["args"][0])
+                feeds = [e for e in p.events if e.kind == "call" and e.seq < fin.seq and e.d["fn"].endswith(("::hash", "::write", "::hash_slice")) and len(e.d["args"]) == 2
+                         and unmut(e.d["args"][1]) == hasher and unmut(e.d["args"][0]) in vparams]
+                feeds += [e for e in p.events if e.kind == "call" and e.seq < fin.seq and e.d["fn"].endswith("Hasher::write") and len(e.d["args"]) == 2
+                          and unmut(e.d["args"][0]) == hasher and any(v in leaves(e.d["args"][1]) or unmut(e.d["args"][1]) == v for v in vparams)]
+                ret_ok = unmut(p.value) == unmut(fin.d["ret"])
+                ok = bool(feeds) and ret_ok
+                why = "%d feed(s) of the value parameter into the hasher before finish(); returns the finish() result: %s" % (len(feeds), ret_ok)
+            obs.append(Ob("R-HASHFN", f["path"], "hash = finish() of a hasher that was fed the value", ok, why, fins[-1].loc() if fins else rel(f["loc"])))
+    return obs
+
+
 def r_hash_noleak(ctx):
     """R-HASH-NOLEAK: a content hash is only ever a map key (or the Hash(..) tag); it never reaches emitted data or an ordering decision"""
     obs = []
@@ -762,6 +827,13 @@ def r_add_offset(ctx):
             g = knows(p, ("ne", P.get("length"), 0), ins[0].seq if ins else None) is not None
             obs.append(Ob("R-ADD-OFFSET", fn, "length 0 refuted before the insert", g, "guard found: %s" % g, rel(f["loc"])))
         obs.append(Ob("R-ADD-OFFSET", fn, "length 0 ⇒ Err without mutation", bool(errs) and all(not mutations(p, roles) for p in errs), "error exits: %d" % len(errs), rel(f["loc"])))
+        for p in errs:
+            if isinstance(p.value, tuple) and p.value and p.value[0] == "errprop":
+                continue
+            d = rejects_because(p, None, lambda fct: fct[0] == "eq" and fct[2] == 0 and unmut(fct[1]) == P.get("length"))
+            ex = [e for e in p.events if e.kind == "exit"]
+            obs.append(Ob("R-ADD-OFFSET", fn, "a registration is refused only for length 0", d is not None,
+                          "refusal justified by `length == 0`" if d is not None else "an error exit that `length == 0` does not account for", ex[-1].loc() if ex else rel(f["loc"]), only=("C01", "C03", "C04")))
     return obs
 
 
